@@ -207,7 +207,10 @@ class Network:
         """
         for service in self.services_per_peer.get(peer.public_key.key_to_bin(), ()):
             service_cache = self.reverse_service_lookup.get(service, None)
-            if service_cache is not None and peer not in service_cache:
+            if service_cache is not None and not any(cached is peer for cached in service_cache):
+                if peer in service_cache:
+                    # An instance of this identity that was cached before it was verified: the verified one replaces it.
+                    service_cache.remove(peer)
                 service_cache.append(peer)
 
     def register_service_provider(self, service_id: Service, overlay: Overlay) -> None:
